@@ -18,10 +18,16 @@ Definition observe (hd : bytes -> hres) (mx : Z) (chunks : list bytes) : val :=
   else VL [fields_val fs; VZ st; VZ (dsize (ddt d)); VZ (dmax (ddt d)); vnat (length (ents (ddt d)))].
 Definition run_C31 (i : val) : val :=
   match decode_input i with
+  | Some (mx, chunks) => observe huff_decode_spec mx chunks
+  | None => VErr 0
+  end.
+(* same observation with the transcription of the byte-trie Huffman decoder *)
+Definition run_C31_trie (i : val) : val :=
+  match decode_input i with
   | Some (mx, chunks) => observe huff_decode mx chunks
   | None => VErr 0
   end.
-Definition agree_C31 (i o : val) : bool := val_eqb (run_C31 i) o.
+Definition agree_C31 (i o : val) : bool := val_eqb (run_C31 i) o && val_eqb (run_C31_trie i) o.
 
 (* THE PROPERTY: the observation is not a panic; if the RFC 7541 reference decoder accepts the concatenated
    input, the implementation reports no error, emitted exactly the reference fields and holds a table of
@@ -38,3 +44,9 @@ Definition prop_C31 (i o : val) : bool :=
   | _, _ => false
   end.
 Definition kf_C31 (i : val) : Z := 0.
+
+Definition wf_C31 (i : val) : bool :=
+  match decode_input i with
+  | Some (mx, chunks) => (0 <=? mx) && forallb wf_bytes chunks
+  | None => false
+  end.
